@@ -110,6 +110,7 @@ class SymEval(Flow):
         self.backedge_hooks = []
         self.call_log = []      # (call node, resolved, positional values, {kw: value}, state)
         self._inline_depth = 0
+        self._heads_of = {}
         self.searches = []      # next(<i in range(lo, hi) if ..>, default): (node, lo, hi, d, result, state)
         self.loop_heads = {}    # id(loop) -> head state of the last pass
 
@@ -412,6 +413,12 @@ class SymEval(Flow):
                     else:
                         st.vars[p] = v
             return val
+        if r and r[0] == 'func' and r[1].outer is not None and self._inline_depth < 3 \
+                and not isinstance(r[1].node, ast.Lambda) and self.inline_closures \
+                and not any(isinstance(x, (ast.Yield, ast.YieldFrom)) for x in ast.walk(r[1].node)):
+            v = self.inline_call(r[1], args, kws, st)
+            if v is not None:
+                return v
         if r and r[0] == 'builtin':
             return self._builtin(name, e, args, st)
         if isinstance(e.func, ast.Attribute):
@@ -420,6 +427,41 @@ class SymEval(Flow):
             if v is not None:
                 return v
         return Obj(fresh('call'))
+
+    inline_closures = False
+
+    def inline_call(self, callee, args, kws, st):
+        """evaluate a local helper function in place (path-sensitively); its feasible return
+        values are joined, the facts of a single feasible return are adopted"""
+        params = callee.params
+        if len(args) > len(params):
+            return None
+        st2 = st.copy()
+        for p, v in zip(params, args):
+            st2.vars[p] = v
+        for k, v in kws.items():
+            if k in params:
+                st2.vars[k] = v
+        saved = (self.ret_states, self.returns, self.func)
+        self.ret_states, self.returns = [], []
+        self._inline_depth += 1
+        try:
+            outs = self.paths(list(callee.body), st2)
+            rets = [(v, s2) for n, v, s2 in self.ret_states if not s2.facts.infeasible()]
+        finally:
+            self._inline_depth -= 1
+            self.ret_states, self.returns, self.func = saved
+        if not rets:
+            return None
+        if len(rets) == 1:
+            st.facts = rets[0][1].facts
+            return rets[0][0] if rets[0][0] is not None else Obj(fresh('none'))
+        val = rets[0][0]
+        for v, s2 in rets[1:]:
+            if v is None or val is None:
+                return None
+            val = self.join_val(val, v)
+        return val
 
     def _builtin(self, name, e, args, st):
         if name == 'len' and len(args) == 1:
@@ -562,6 +604,13 @@ class SymEval(Flow):
             if isinstance(t.op, ast.And) and truth or isinstance(t.op, ast.Or) and not truth:
                 for v in t.values:
                     out += self.cond_facts(v, st, truth)
+            return out
+        if isinstance(t, ast.Compare) and len(t.ops) > 1:
+            if truth:
+                operands = [t.left] + list(t.comparators)
+                for a_, op_, b_ in zip(operands, t.ops, operands[1:]):
+                    pair = ast.Compare(left=a_, ops=[op_], comparators=[b_])
+                    out += self.cond_facts(pair, st, True)
             return out
         if isinstance(t, ast.Compare) and len(t.ops) == 1:
             a = self.as_int(self.ev(t.left, st), st)
@@ -721,9 +770,13 @@ class SymEval(Flow):
         for k in entry.vars:
             if k in assigned or k in akeys:
                 cands.append(('same', k))
+                if isinstance(entry.vars[k], Int):
+                    cands.append(('mono', k))
         if not hasattr(self, '_entry_stack'):
             self._entry_stack = []
+            self._loop_ids = []
         self._entry_stack.append(entry)
+        self._loop_ids.append(id(s))
         extra = self.extra_candidates(s, entry, assigned | akeys)
         cands += extra
         it = 0
@@ -750,6 +803,7 @@ class SymEval(Flow):
                 break
             cands = keep
         self._entry_stack.pop()
+        self._loop_ids.pop()
         self.invariants[id(s)] = [self.cand_text(c) for c in cands]
         for b in backs:
             for hook in self.backedge_hooks:
@@ -801,6 +855,8 @@ class SymEval(Flow):
             return '%s >= 0' % c[1]
         if c[0] == 'same':
             return '%s unchanged at the back edge' % c[1]
+        if c[0] == 'mono':
+            return '%s never decreases' % c[1]
         return repr(c)
 
     def havoc(self, entry, assigned, akeys, cands, loop):
@@ -825,6 +881,9 @@ class SymEval(Flow):
                     st.vars[k] = Int(a)
                     if ('ge0', k) in cands:
                         st.facts = st.facts.add(a)
+                    if ('mono', k) in cands:
+                        st.facts = st.facts.add(a - old.a)
+                    self._heads_of.setdefault(id(loop), {})[k] = a
                 else:
                     st.vars[k] = Obj(fresh('hv'))
         for a in assigned:
@@ -844,6 +903,12 @@ class SymEval(Flow):
         if c[0] == 'ge0':
             v = st.vars.get(c[1])
             return isinstance(v, Int) and st.facts.prove_ge0(v.a)
+        if c[0] == 'mono':
+            v = st.vars.get(c[1])
+            h = self._heads_of.get(self._loop_ids[-1], {}).get(c[1]) if self._loop_ids else None
+            if not isinstance(v, Int) or h is None:
+                return False
+            return st.facts.prove_ge0(v.a - h)
         if c[0] == 'same':
             v, w = st.vars.get(c[1]), self._entry_of(c[1])
             if v is None or w is None:
